@@ -37,10 +37,19 @@ def variants(rnd):
         ("SWT", b(scenario="relocated_crops", seasonality="no_seasonality", waste="zero", rabbit_head=5000)),
         ("NZL", b(scenario="greenhouse", shutoff="short_delayed_shutoff", kg_meat_per_large_animal=300)),
         ("EST", b(scenario="all_resilient_foods_and_more_area", MINIMUM_PERCENT_FED_BEFORE_NONHUMAN_CONSUMPTION_ALLOWED=50, shutoff="continued")),
+        # small populations under the stock regimes that are not stored between years (the optimiser has special-case
+        # tolerances for POP < 1e7; whatever such a run changes must not outlive it)
+        ("LSO", b(ratio_stocks_untouched="no_stored_between_years", shutoff="continued")),
+        ("EST", b(ratio_stocks_untouched="baseline_no_stored_between_years", scenario="all_resilient_foods", NMONTHS=72)),
         # failing / rejected runs
         ("ARG", b(fat="required")),
         ("BRA", b(shutoff="no_such_schedule")),
     ]
+    # ... and a few seeded random ones (rows with zeros or tiny populations x random option vectors)
+    isos = workload.all_isos()
+    cand = [i for i in workload.HOSTILE + workload.ZERO_ROWS if i in isos and i != "WOR"]
+    for _ in range(4):
+        pool.insert(-2, (rnd.choice(cand), workload.random_options(rnd, overrides=False)))
     return pool
 
 
